@@ -39,7 +39,9 @@ def mk_cases(ctx):
     ctx.exhaustive.append("slices/indices over all layouts total<=%d runs<=3: %d cases" % (maxlen, len(cases)))
     pool = [chunks_for(l, shift=s) for l, s in [((), 0), ((0,), 0), ((1,), 1), ((2,), 2), ((1, 1), 0), ((0, 2), 1),
                                                  ((2, 0, 1), 2), ((1, 2), 3)]]
-    strs = ["", "x", "xy", "x\ny", " ", "\t"]
+    # plain-str operands of + include escape sequences: `f + s` / `s + f` wrap the str verbatim (no parsing), so its
+    # characters - ESC, '[', digits, 'm' - all appear, unformatted (join is the operation that parses: D27)
+    strs = ["", "x", "xy", "x\ny", " ", "\t", "\x1b[31mx\x1b[39m", "\x1b[32mgo", "a\x1b[0mb", "\x1b[5;9Hx", "\x1b[999mx", "\x1b", "\x9b31mx", "\x1b[1;31m"]
     for f, g in itertools.product(pool, pool):
         cases.append(dict(op="add", f=f, g=g))
     for f, s in itertools.product(pool, strs):
